@@ -177,3 +177,42 @@ package yang
 //@     invariant allValid(cr, i + 1) && nonAdjacent(cr, i + 1)
 //@     invariant forall j int :: 0 <= j && j <= i ==> cr[j].Min.FractionDigits == fdOf(r) && cr[j].Max.FractionDigits == fdOf(r)
 //@     invariant sval(cr[i].Min) <= sval(r[_k].Min)
+//
+// Sort is goyang's one-line wrapper around sort.Sort; its contract is assumed
+// (sort.Sort yields a permutation of its input ordered by YangRange.Less, which
+// orders by Min first): same value set, same parts, ordered by minimum.
+//@ func (YangRange).Sort props C10
+//@   trusted
+//@   requires len(r) > 0 ==> fdOf(r) <= 18 && sameFD(r, fdOf(r))
+//@   ensures  sortedMin(r) && (old(allValid(r, len(r))) ==> allValid(r, len(r)))
+//@   ensures  len(r) > 0 ==> fdOf(r) == old(fdOf(r)) && sameFD(r, fdOf(r))
+//@   ensures  forall x int :: mem(x, r, len(r)) == old(mem(x, r, len(r)))
+//@   modifies elems(r)
+//
+//@ func ParseDecimal props C15 C10
+//@   ensures  err == nil ==> n.FractionDigits == fracDigRequired && 1 <= fracDigRequired && fracDigRequired <= 18
+//@   modifies nothing
+//@   safe
+//
+// parseNumber: the closure inside parseChildRanges. `min` and `max` denote the
+// bounds of the parent's set; every number comes back at the required scale.
+//@ func (YangRange).parseChildRanges$1 props C10
+//@   requires fracDigRequired <= 18 && (!decimal ==> fracDigRequired == 0)
+//@   ensures  result1 == nil ==> result.FractionDigits == fracDigRequired
+//@   ensures  s == "max" && len(y) > 0 ==> result1 == nil && sval(result) == sval(y[len(y)-1].Max)
+//@   ensures  s == "min" && len(y) > 0 ==> result1 == nil && sval(result) == sval(y[0].Min)
+//@   ensures  (s == "min" || s == "max") && len(y) == 0 ==> result1 != nil
+//@   modifies nothing
+//@   safe
+//
+//@ func (YangRange).parseChildRanges props C10
+//@   requires fracDigRequired <= 18 && (!decimal ==> fracDigRequired == 0)
+//@   requires len(y) > 0 ==> sameFD(y, fracDigRequired)
+//@   ensures  result1 == nil ==> allValid(result, len(result)) && nonAdjacent(result, len(result)) && disjoint(result, len(result))
+//@   ensures  result1 == nil ==> len(result) >= 1 && sameFD(result, fracDigRequired)
+//@   ensures  result1 == nil && len(y) > 0 ==> (forall x int :: mem(x, result, len(result)) ==> mem(x, y, len(y)))
+//@   ensures  result1 != nil ==> result == nil
+//@   safe
+//@   loop 1
+//@     modifies elems(r)
+//@     invariant forall j int :: 0 <= j && j < _k ==> validR(r[j]) && r[j].Min.FractionDigits == fracDigRequired && r[j].Max.FractionDigits == fracDigRequired
